@@ -23,6 +23,9 @@ REQUIRE_CLAUSES = ["thr_rows", "thr_cn_step", "thr_nan_neutral", "thr_monotone",
                    "allelic_sum", "allelic_range", "allelic_missing"]
 execute = K.execute
 E6 = 10**6
+# test points beside the literal default thresholds (numerators over 10^9; the spec holds the same brackets and
+# decides on which side a point lies -- these are only used to *place* inputs)
+BRACKETS = [(466516495, 466516496), (840896415, 840896416), (1148698354, 1148698355), (1624504792, 1624504793)]
 
 
 def _table_inputs(inputs, vmode):
@@ -80,8 +83,7 @@ def random_inputs(ctx: Ctx, n_tables):
                 s = rng.choice([-1, 1])
                 q = (u[0] * (E6 + s), u[1] * E6, 0)
             elif kind < 0.45:                       # either side of a default threshold: outside its bracket
-                lo, hi = [(466516495, 466516496), (840896415, 840896416), (1148698354, 1148698355),
-                          (1624504792, 1624504793)][u[2] - 1]
+                lo, hi = BRACKETS[u[2] - 1]
                 q = rng.choice([(lo, 10**9, 0), (hi, 10**9, 0), (lo - lo // E6, 10**9, 0), (hi + hi // E6, 10**9, 0)])
             elif kind < 0.6 and rc > 0:             # at / either side of an integer crossing of rc * 2^log2
                 m = rng.randint(1, 8)
@@ -138,7 +140,11 @@ def _bump(ctx, rec):
                 elif a * E6 == b * (E6 + 1):
                     ctx.bump("log2_1e-6_above_threshold")
             elif not qt and u[2] and qd == 10**9:
-                ctx.bump("log2_beside_default_threshold_bracket")
+                lo, hi = BRACKETS[u[2] - 1]
+                if qn in (lo, lo - lo // E6):
+                    ctx.bump("log2_just_below_default_threshold")
+                elif qn in (hi, hi + hi // E6):
+                    ctx.bump("log2_just_above_default_threshold")
         if not qt and rc:
             x = Fraction(rc * qn, qd)
             for m in range(1, 9):
